@@ -204,6 +204,8 @@ func c08(r *Report, s *Sem) {
 		}
 	}
 
+	checkReaderNeverNilNil(r, s, R1)
+
 	// ---- R2
 	nReads := 0
 	okUsed := true
